@@ -2,6 +2,8 @@
 
 package pipeline
 
+import "github.com/buildkite/go-pipeline/ordered"
+
 // C12 - matrix interpolation replaces exactly the permutation's tokens, only in scope.
 
 func init() {
@@ -185,6 +187,12 @@ func vpH_c12_scope() {
 		Matrix:          m,
 		RemainingFields: map[string]any{"r" + tok: "s" + tok},
 	}
+	// a nested mapping as the parser keeps it (ordered), tokens in its first, middle and last keys
+	om := vpMapOf("f"+tok, "1", "plain", tok, "m"+tok, "3", "last", "4")
+	withOrdered := vpBool()
+	if withOrdered {
+		step.RemainingFields["agents"] = om
+	}
 	empty := vpBool()
 	if empty {
 		step.Matrix = nil
@@ -192,6 +200,10 @@ func vpH_c12_scope() {
 		vpAssert(err == nil, "empty permutation on a step without matrix is accepted")
 		vpAssert(step.Command == "c"+tok+tok && step.Label == "l"+tok && step.Key == "k"+tok, "empty permutation changes nothing (scalars)")
 		vpAssert(step.Env["E"+tok] == "v"+tok && step.Plugins[0].Source == "p"+tok && step.RemainingFields["r"+tok] == any("s"+tok), "empty permutation changes nothing (containers)")
+		if withOrdered {
+			_, kept := om.Get("f" + tok)
+			vpAssert(om.Len() == 4 && kept, "empty permutation changes nothing (nested ordered mapping)")
+		}
 		return
 	}
 	err := step.InterpolateMatrixPermutation(MatrixPermutation{dim: v})
@@ -206,7 +218,21 @@ func vpH_c12_scope() {
 	ev, ok := step.Env["E"+tok]
 	vpAssert(len(step.Env) == 1 && ok, "env names are not matrix-interpolated")
 	vpAssert(ev == "v"+v, "env values: tokens replaced")
-	vpAssert(len(step.RemainingFields) == 1 && step.RemainingFields["r"+v] == any("s"+v), "unknown fields: tokens replaced")
+	if withOrdered {
+		got, isOM := step.RemainingFields["agents"].(*ordered.MapSA)
+		okm := isOM && got.Len() == 4
+		if okm {
+			a, hasA := got.Get("f" + v)
+			b, hasB := got.Get("plain")
+			c3, hasC := got.Get("m" + v)
+			d, hasD := got.Get("last")
+			okm = hasA && a == any("1") && hasB && b == any(v) && hasC && c3 == any("3") && hasD && d == any("4")
+		}
+		vpAssert(okm, "nested ordered mappings in unknown fields: tokens replaced in every key (first, middle, last) and value")
+		vpAssert(len(step.RemainingFields) == 2 && step.RemainingFields["r"+v] == any("s"+v), "unknown fields: tokens replaced")
+	} else {
+		vpAssert(len(step.RemainingFields) == 1 && step.RemainingFields["r"+v] == any("s"+v), "unknown fields: tokens replaced")
+	}
 	vpAssert(step.Key == "k"+tok, "the step key is unchanged")
 	vpAssert(step.Signature == sig && sig.Algorithm == tok && sig.Value == tok && sig.SignedFields[0] == tok, "the signature is unchanged")
 	vpAssert(step.Matrix == m && len(m.Setup) == 1 && len(m.Setup[dim]) == 2 && m.Setup[dim][0] == v && m.Setup[dim][1] == tok && m.RemainingFields[tok] == any(tok), "the matrix definition is unchanged")
